@@ -1034,6 +1034,14 @@ impl<S: Strat> Local<S> {
                     self.do_map_load(sh, *c as usize)
                 }
             }
+            Op::Aba(c) => {
+                // swap a fresh value in (the old one becomes our newest handle), swap it back
+                sh.hs(|h| h.aba_identity += 1);
+                self.store_like(sh, *c as usize, &Val::Fresh, true);
+                if !rt::aborted() {
+                    self.store_like(sh, *c as usize, &Val::Handle(255), true);
+                }
+            }
         }
     }
 
